@@ -157,6 +157,8 @@ PREDS = {
     "or_common": lambda y: ((y["a"] > 1) & (y["b"] < 4)) | ((y["a"] > 1) & (y["d"] == 1)),
     "a_gt_mean": lambda y: y["a"] > y["a"].mean(),
     "a_gt_d": lambda y: y["a"] > y["d"],
+    "a_gt_mean_plus": lambda y: y["a"] > y["a"].mean() + 0,
+    "a_minus_mean": lambda y: y["a"] - y["a"].mean() > 0,
     "idx_gt": lambda y: y.index > 3,
     "z_gt": lambda y: y["z"] > 3,          # created column
     "A_gt": lambda y: y["A"] > 2,          # renamed column
@@ -169,8 +171,8 @@ PREDS = {
 
 CROSS = {
     # operator: (dask fn, pandas fn, ordered, labelled, applicable predicates)
-    "proj": (lambda x: x[["a", "b", "c", "d"]], None, True, True, ["a_gt2", "b_ne", "not_b_gt", "c_isin", "c_ne_x", "b_isna", "and_ab", "or_ab", "or_common", "a_gt_mean", "a_gt_d", "idx_gt"]),
-    "assign": (lambda x: x.assign(z=x["a"] + x["d"]), None, True, True, ["a_gt2", "z_gt", "and_z_a", "b_ne", "or_common", "a_gt_mean"]),
+    "proj": (lambda x: x[["a", "b", "c", "d"]], None, True, True, ["a_gt_mean_plus", "a_minus_mean", "a_gt2", "b_ne", "not_b_gt", "c_isin", "c_ne_x", "b_isna", "and_ab", "or_ab", "or_common", "a_gt_mean", "a_gt_d", "idx_gt"]),
+    "assign": (lambda x: x.assign(z=x["a"] + x["d"]), None, True, True, ["a_gt_mean_plus", "a_gt2", "z_gt", "and_z_a", "b_ne", "or_common", "a_gt_mean"]),
     "assign_over": (lambda x: x.assign(a=x["a"] * 2), None, True, True, ["a_gt2", "and_ab", "a_gt_d"]),
     "rename": (lambda x: x.rename(columns={"a": "A"}), None, True, True, ["A_gt", "b_ne", "c_isin"]),
     "add_prefix": (lambda x: x.add_prefix("p_"), None, True, True, ["pa_gt"]),
@@ -180,7 +182,7 @@ CROSS = {
     "reset_index": (lambda x: x.reset_index(), None, True, False, ["a_gt2", "index_col", "b_ne"]),
     "reset_index_drop": (lambda x: x.reset_index(drop=True), None, True, False, ["a_gt2", "b_isna"]),
     "to_frame": (lambda x: x["a"].to_frame(), None, True, True, ["a_gt2"]),
-    "sort_values": (lambda x: x.sort_values("u"), None, True, True, ["a_gt2", "u_gt", "b_ne", "or_common", "a_gt_mean"]),
+    "sort_values": (lambda x: x.sort_values("u"), None, True, True, ["a_gt_mean_plus", "a_minus_mean", "a_gt2", "u_gt", "b_ne", "or_common", "a_gt_mean"]),
     "set_index": (lambda x: x.set_index("u"), lambda x: x.set_index("u").sort_index(), True, True, ["a_gt2", "idx_gt", "and_idx_a", "b_ne", "a_gt_mean"]),
     "shuffle": (lambda x: x.shuffle("a"), lambda x: x, False, True, ["a_gt2", "b_ne", "c_ne_x", "or_common"]),
     "repartition": (lambda x: x.repartition(npartitions=2), lambda x: x, True, True, ["a_gt2", "b_ne", "a_gt_mean", "idx_gt"]),
@@ -284,6 +286,10 @@ JOIN_PREDS = {
     "chain": lambda m: (m["u"] > 2) & (m["e"] < 6) & (m["a"] > 1),
     "or_sides": lambda m: (m["u"] > 8) | (m["e"] < 2),
     "ne_right": lambda m: m["e"] != 3,
+    "custom2_right_plain": lambda m: m["b"] > 20,   # suffixes ("_l", ""): bare name is the right column
+    "custom2_left": lambda m: m["b_l"] > 1,
+    "vs_mean_plus": lambda m: m["u"] > m["u"].mean() + 0,
+    "minus_mean": lambda m: m["u"] - m["u"].mean() > 0,
     "not_left": lambda m: ~(m["u"] > 4),
 }
 
@@ -298,6 +304,8 @@ def eval_join(case):
     kw = dict(on="a", how=how if how != "leftsemi" else "inner")
     if suff == "custom":
         kw["suffixes"] = ("", "_r")
+    elif suff == "custom2":
+        kw["suffixes"] = ("_l", "")
 
     def build(l, r, pandas):
         if how == "leftsemi":
@@ -410,7 +418,7 @@ def run(ctx):
                 cases.append({"mode": "cross", "op": op, "pred": p, "consumer": consumer})
     for how in ("inner", "left", "right", "outer", "leftsemi"):
         for p in JOIN_PREDS:
-            for suff in ("default", "custom"):
+            for suff in ("default", "custom", "custom2"):
                 for consumer in ("sole", "shared", "projected"):
                     cases.append({"mode": "join", "how": how, "pred": p, "suffixes": suff, "consumer": consumer})
     ctx.rule = (f"(a) ALL predicate trees with <= {maxconn} and/or connectives over the 6 literals of 3 atoms ({ntrees} trees after commutative dedupe), "
